@@ -75,7 +75,8 @@ HAYSON_KINDS = {'number': ['val', 'unit'], 'ref': ['val', 'dis'], 'symbol': ['va
 
 
 def hayson_templates(ctx):
-    return [{'name': 'hayson-' + k, 'hayson': k} for k in HAYSON_KINDS] + [{'name': 'hayson-kind-type', 'hayson': None}]
+    return [{'name': 'hayson-' + k, 'hayson': k} for k in HAYSON_KINDS] + [{'name': 'hayson-kind-type', 'hayson': None}] + \
+           [{'name': 'hayson-dt-offset', 'hayson': 'dateTime', 'dt_offset': True}, {'name': 'hayson-dt-offset-tz', 'hayson': 'dateTime', 'dt_offset': True, 'tz': b'New_York'}]
 
 
 def hayson_member(ex, l, conc_numbers=False):
@@ -102,6 +103,15 @@ def hayson_path(ex, t):
     from props import hayson_common as hc
     from mirsym.hv import HV
     l = Leaves(ex)
+    if t.get('dt_offset'):
+        # a full RFC 3339 text with every offset +-hh:mm (four symbolic digits), with and without a zone name
+        sign = [43, 45][ex.pick(2)]
+        ds = [l.byte([(48, 57)]) for _ in range(4)]
+        val = list(b'2021-06-15T12:30:00') + [sign] + ds[:2] + [58] + ds[2:]
+        ent = [(list(b'_kind'), J('str', list(b'dateTime'))), (list(b'val'), J('str', val))]
+        if t.get('tz'): ent.append((list(b'tz'), J('str', list(t['tz']))))
+        tree = J('map', ent); ex.side['tree'] = tree
+        return hc.decode(ex, tree, HV(ex).ty('Value'))
     if t['hayson'] is None:
         kindv = hayson_member(ex, l, t.get('conc_numbers')) or J('null'); members = [(list(b'val'), J('str', [l.byte([(0x20, 0x7e)])]))]
     else:
